@@ -42,6 +42,10 @@ ReadKinds == {"get", "write", "str", "validate", "vfield"}
 C18Ops(i, t) == {Op("set", FN(i), c, t) : c \in ClsOf(i)} \cup {Op(k, FN(i), "-", t) : k \in ReadKinds}
 AllOps(i, s) ==
   C18Ops(i, "orig")
+  \* Add (one more value for a header tag): on tags, on either copy
+  \cup (IF Flds[i].kind \in {"tag", "newtag"}
+        THEN {Op("add", FN(i), c, t) : c \in ClsOf(i), t \in (IF s.has THEN {"orig", "clone"} ELSE {"orig"})}
+        ELSE {})
   \cup (IF s.has THEN C18Ops(i, "clone") ELSE {Op("clone", FN(i), "-", "orig")})
   \cup {Op("edit", FN(i), c, t) : c \in {"same", "wrongsyntax"}, t \in (IF s.has THEN {"orig", "clone"} ELSE {"orig"})}
   \cup (IF Flds[i].kind = "tag"
@@ -146,6 +150,8 @@ CallOK(h, lvl, j, cur) ==
   ELSE IF cur = "absent" THEN                                               \* nothing assigned yet
        IF e.op.k \in {"write", "vfield"} THEN ~e.mark ELSE e.res = "ok" /\ ~e.mark
   ELSE IF cur = "valid" THEN e.res = "ok" /\ ~e.mark                         \* never rejected later
+  ELSE IF cur = "inconsistent" THEN                                         \* valid for the field; the line
+       IF e.op.k = "validate" THEN ~e.mark ELSE e.res = "ok" /\ ~e.mark     \* may report its own rule
   ELSE IF e.op.k \in {"validate", "vfield"} THEN e.res = "Error"             \* every level
   ELSE IF e.op.k \in {"write", "str"} THEN
        (lvl >= 2 /\ ~ReportedBefore(h, j)) => (e.res = "Error" \/ e.mark)    \* no later than the write
@@ -159,7 +165,7 @@ Poss(h, lvl, j) ==
        ELSE IF e.op.k = "set" THEN (IF e.chg THEN {e.op.c} ELSE Q)
        ELSE IF (e.op.k = "get" \/ (e.op.k = "str" /\ e.mark)) /\ e.chg /\ e.res = "ok" THEN
             \* the stored object was replaced by the read
-            (IF lvl = 0 THEN Q \cup {"valid"} ELSE Q)
+            (IF lvl = 0 /\ Q \cap InvalidCls # {} THEN Q \cup {"valid", "inconsistent"} ELSE Q)
        ELSE Q
 Decl(h, lvl) == Poss(h, lvl, Len(h) + 1) # {}
 
